@@ -75,6 +75,8 @@ fn replay(ctx: &Ctx, w: &World, case: &Value) {
 }
 
 fn main() {
+    // a stack overflow / abort in the code under test must become a verdict, not a dead check
+    vcore::supervise("C20");
     let ctx = Ctx::from_args("C20", "exploration");
     let thorough = !ctx.quick();
     let w = World::new();
@@ -88,7 +90,9 @@ fn main() {
         "VALID: every record of the alphabet (22 types x 2..4 value shapes, TXT 15; 10 owner/TTL/class envelopes) x EVERY legal \
          layout vector of the independent printer vref::masterfile (file: eol, final newline, $TTL first; record: $ORIGIN before, \
          blank line, owner form, TTL form, class form, order, separators, comment, parentheses, string quoting, RDATA name form); \
-         every ordered pair (thorough: triple) of a sub-alphabet x every legal vector of a reduced profile (see coverage.profiles). \
+         every ordered pair (thorough: triple) of a sub-alphabet x every legal vector of a reduced profile (see coverage.profiles); \
+         every ordered triple of 9 owner/TTL/class envelopes on plain A/MX/TXT records x every legal vector of the state-carrying \
+         dimensions (owner, TTL, class form, $ORIGIN change, $TTL) in both tiers. \
          Oracle: parse Ok, loaded (owner,TTL,class,type,RDATA) set == records printed, returned origin == argument. \
          MALFORMED: all strings of length <= 5 (thorough 6) over the 15 characters ' \\t\\n\\r();\"\\\\$@.a0*' (with and without an \
          origin argument), every 1-character deletion/insertion/substitution of the seed files (thorough: all 2-edits of the 8 \
@@ -181,6 +185,35 @@ fn main() {
     }
 
     eprintln!("[C20] pairs done at {:.1}s", ctx.elapsed_s());
+    // compact "chain" triples (both tiers): three plain records (A, MX, TXT) x every ordered triple of
+    // 9 owner/TTL/class envelopes x every legal vector of the state-carrying layout dimensions
+    // (owner form, TTL form, class form, $ORIGIN before the record, $TTL first), everything else plain
+    {
+        let prof = Profile::triple();
+        profiles.insert("chain-triple".into(), prof.describe());
+        let chain = alphabet::chain_alphabet();
+        let stats = Mutex::new(Stats::default());
+        let k = alphabet::CHAIN_ENVS;
+        let n = (k * k * k) as u64;
+        ctx.par_run(n, 1, |i, l| {
+            let i = i as usize;
+            let en = Enum { ctx: &ctx, w: &w, alpha_name: "chain", alpha: &chain, profile: &prof, stats: &stats };
+            en.run_tuple(&[i / (k * k), k + i / k % k, 2 * k + i % k], l);
+        });
+        let st = stats.into_inner().unwrap();
+        ctx.set("valid_chain_triple_envelopes", json!(k));
+        ctx.set("valid_chain_triple_files", json!(st.legal));
+        eprintln!("[C20] chain triples: legal={} ok={} violating={} minimised={} unjudged={}", st.legal, st.ok, st.violating, st.minimised, st.unjudged);
+        for (d, vals) in [(0usize, vec![2usize, 3]), (2, vec![1, 2, 3]), (3, vec![1, 2]), (4, vec![1])] {
+            for v in vals {
+                if st.dimvals[d][v] == 0 {
+                    ctx.machinery_failure(&format!("vacuous: {}={} never legal in chain triples", DIMS[d].0, DIMS[d].1[v]));
+                }
+            }
+        }
+        total.lock().unwrap().add(&st);
+    }
+    eprintln!("[C20] chain triples done at {:.1}s", ctx.elapsed_s());
     // ordered triples (thorough)
     if thorough {
         let prof = Profile::triple();
